@@ -5,7 +5,7 @@
 (* zero, which makes that description unmatchable for good.                 *)
 EXTENDS MC_Faults
 lvCallChoices == {[c \in mcCallers |-> Kinds[f[c]]] :
-                    f \in {g \in [mcCallers -> {1, 3, 5}] : \A c \in mcCallers : c > 1 => g[c - 1] <= g[c]}}
-lvInitChoices == {<<DT(a), DA(b), DO(1)>> : a \in 1..2, b \in 1..2}
+                    f \in {g \in [mcCallers -> {1, 3}] : \A c \in mcCallers : c > 1 => g[c - 1] <= g[c]}}
+lvInitChoices == {<<DT(a), DA(1)>> : a \in 1..2} \cup {<<DA(1), DT(1)>>}
 lvLatePool == {[tag |-> "dL", op |-> "Publish", params |-> <<>>, n |-> 1]}
 =============================================================================
